@@ -46,6 +46,19 @@ def cases(rng, tier):
             e = "prf=" + (IL.to_bytes(32, "big") + IL.to_bytes(32, "big")).hex()
             yield "bip85 %s wif 0 0 %s" % (spec, e), "bip85-wif"
             yield "bip85 %s xprv 0 0 %s" % (spec, e), "bip85-xprv"
+        # BOTH conditions at once: IL >= n and IL + k_par = 0 (mod n), i.e. IL = 2n - k_par, a 256-bit value only for
+        # parents within 2^256 - n of n (about 2^-128 of all parents)
+        for r_ in (1, 2, rng.randrange(1, 2 ** 64), rng.randrange(2 ** 100, 2 ** 128)):
+            kp = N - r_
+            IL2 = 2 * N - kp
+            if IL2 >= 2 ** 256:
+                continue
+            spec2 = "P:%s:%s:%d:%d:0:%s" % (hx(kp.to_bytes(32, "big")), hx(bytes(rng.getrandbits(8) for _ in range(32))),
+                                             1, 7, hx(bytes(4)))
+            prf2 = "prf=" + (IL2.to_bytes(32, "big") + bytes(rng.getrandbits(8) for _ in range(32))).hex()
+            for idx2 in (0, 7, 2 ** 31 + 7):
+                yield "ckd %s %d %s" % (spec2, idx2, prf2), "both-invalid-conditions"
+                yield "ckd_retry %s %d %s %s" % (spec2, idx2, prf2, rng.choice(["c", "d", "g", "cd"])), "both-invalid-conditions-retry"
         # PATHS of several levels whose invalid child sits at level j (the private key is zero there: IL = -k/j mod n;
         # the public key is the point at infinity there), with levels before and behind it, all-hardened, all-normal
         # and mixed: the request as a whole is refused
